@@ -78,6 +78,9 @@ Proof. intros [La Fa] [Lb Fb]. apply value_inj; auto. congruence. Qed.
 Lemma wf_fits N l : u32s_wf N l -> u32s_fits N (u32s_value l).
 Proof. intros [L F]. apply fits_T. rewrite <- L. apply value_range; auto. Qed.
 
+Lemma wf_range N l : u32s_wf N l -> 0 <= u32s_value l < T N.
+Proof. intros [L F]. rewrite <- L. apply value_range; auto. Qed.
+
 Lemma is_zero_spec l : Forall limb l -> u32s_is_zero l = true <-> u32s_value l = 0.
 Proof.
   induction 1 as [|x t Hx Ht IH]; cbn [u32s_is_zero forallb].
@@ -422,7 +425,7 @@ Lemma bit_index_split (l : list Z) i : 0 <= i < 32 * Z.of_nat (length l) ->
 Proof.
   intros H. assert (Hk : (Z.to_nat (i / 32) < length l)%nat) by (apply Nat2Z.inj_lt; rewrite Z2Nat.id; lia).
   destruct (nth_error l (Z.to_nat (i / 32))) as [x|] eqn:E.
-  - exists (Z.to_nat (i / 32)), (i mod 32), x. repeat split; auto; try lia. rewrite Z2Nat.id by lia. lia.
+  - exists (Z.to_nat (i / 32)), (i mod 32), x. repeat split; auto; try lia; rewrite Z2Nat.id by lia; lia.
   - apply nth_error_None in E. lia.
 Qed.
 
@@ -458,4 +461,602 @@ Proof.
   assert (Ep : 2 ^ (32 * Z.of_nat k + e) = T k * 2 ^ e).
   { unfold T. rewrite Z.pow_add_r by lia. reflexivity. }
   rewrite Ep. ring.
+Qed.
+
+(* ------------------------------------------------------------------ rem_div *)
+Lemma bit_of_range x e : 0 <= bit_of x e < 2.
+Proof. unfold bit_of. apply Z.mod_pos_bound. lia. Qed.
+
+Lemma bit_of_double x : bit_of (2 * x) 0 = 0.
+Proof. unfold bit_of. rewrite Z.pow_0_r, Z.div_1_r. lia. Qed.
+
+Lemma bit_of_mul_pow2 i Q : 0 <= i -> bit_of (2 ^ (i + 1) * Q) i = 0.
+Proof.
+  intros Hi. unfold bit_of. rewrite Z.pow_add_r by lia. change (2 ^ 1) with 2.
+  replace (2 ^ i * 2 * Q) with ((2 * Q) * 2 ^ i) by ring.
+  rewrite Z.div_mul by (apply Z.pow_nonzero; lia). lia.
+Qed.
+
+Lemma div_pow2_step A i : 0 <= i -> A / 2 ^ i = 2 * (A / 2 ^ (i + 1)) + bit_of A i.
+Proof.
+  intros Hi. unfold bit_of. rewrite Z.pow_add_r by lia. change (2 ^ 1) with 2.
+  rewrite <- Z.div_div by (try apply Z.pow_pos_nonneg; lia). lia.
+Qed.
+
+Lemma rem_div_step_spec N a d i q r Q :
+  u32s_wf N a -> u32s_wf N d -> 0 < u32s_value d ->
+  u32s_wf N q -> u32s_wf N r ->
+  0 <= i < 32 * Z.of_nat N ->
+  u32s_value q = 2 ^ (i + 1) * Q ->
+  u32s_value a / 2 ^ (i + 1) = Q * u32s_value d + u32s_value r ->
+  u32s_value r < u32s_value d ->
+  exists q' r' Q', u32s_rem_div_step a d i q r = Some (q', r') /\ u32s_wf N q' /\ u32s_wf N r' /\
+    u32s_value q' = 2 ^ i * Q' /\
+    u32s_value a / 2 ^ i = Q' * u32s_value d + u32s_value r' /\
+    u32s_value r' < u32s_value d.
+Proof.
+  intros Ha Hd HD Hq Hr Hi Vq Inv Rlt.
+  pose proof (wf_range N a Ha) as FA. pose proof (wf_range N r Hr) as FR. pose proof (wf_range N q Hq) as FQ.
+  set (A := u32s_value a) in *. set (D := u32s_value d) in *. set (R := u32s_value r) in *.
+  assert (Hp1 : 0 < 2 ^ (i + 1)) by (apply Z.pow_pos_nonneg; lia).
+  assert (Hp : 0 < 2 ^ i) by (apply Z.pow_pos_nonneg; lia).
+  assert (HQ : 0 <= Q).
+  { destruct (Z.le_gt_cases 0 Q) as [|Hneg]; auto. exfalso.
+    assert (2 ^ (i + 1) * Q < 0) by (apply Z.mul_pos_neg; lia). lia. }
+  assert (HQD : 0 <= Q * D) by (apply Z.mul_nonneg_nonneg; lia).
+  (* the doubling cannot overflow: R <= A / 2^(i+1) <= A / 2 *)
+  assert (H2R : 2 * R < T N).
+  { assert (A / 2 ^ (i + 1) <= A / 2).
+    { apply Z.div_le_compat_l; [lia|]. split; [lia|]. rewrite Z.pow_add_r by lia. change (2 ^ 1) with 2. lia. }
+    lia. }
+  unfold u32s_rem_div_step.
+  pose proof (mul_two_spec N r Hr) as M. destruct (u32s_mul_two r) as [r1|]; [|fold R in M; lia].
+  destruct M as [Hr1 V1]. fold R in V1.
+  pose proof (get_bit_spec a i (proj2 Ha) ltac:(lia)) as G. rewrite (proj1 Ha) in G.
+  destruct (Z.ltb_spec i (32 * Z.of_nat N)) as [_|]; [|lia].
+  destruct G as (bit & -> & Hbit). fold A in Hbit.
+  pose proof (set_bit_spec N r1 0 bit Hr1 ltac:(lia)) as S.
+  destruct (Z.ltb_spec 0 (32 * Z.of_nat N)) as [_|]; [|lia].
+  destruct S as (r2 & -> & Hr2 & V2). rewrite V1, bit_of_double, Z.pow_0_r, Hbit in V2.
+  pose proof (bit_of_range A i) as Hb.
+  pose proof (div_pow2_step A i ltac:(lia)) as Estep. rewrite Inv in Estep.
+  rewrite (ge_spec N) by auto. fold D.
+  destruct (Z.leb_spec D (u32s_value r2)) as [Hge|Hlt].
+  - pose proof (sub_spec N r2 d Hr2 Hd) as Sb. destruct (u32s_sub r2 d) as [r3|]; [|fold D in Sb; lia].
+    destruct Sb as [Hr3 V3]. fold D in V3.
+    pose proof (set_bit_spec N q i true Hq ltac:(lia)) as S.
+    destruct (Z.ltb_spec i (32 * Z.of_nat N)) as [_|]; [|lia].
+    destruct S as (q1 & -> & Hq1 & Vq1). rewrite Vq, bit_of_mul_pow2 in Vq1 by lia. cbn [b2z] in Vq1.
+    exists q1, r3, (2 * Q + 1). split; [reflexivity|]. split; [exact Hq1|]. split; [exact Hr3|]. repeat split.
+    + rewrite Vq1. rewrite Z.pow_add_r by lia. change (2 ^ 1) with 2. ring.
+    + rewrite Estep, V3, V2. ring.
+    + lia.
+  - exists q, r2, (2 * Q). split; [reflexivity|]. split; [exact Hq|]. split; [exact Hr2|]. repeat split.
+    + rewrite Vq. rewrite Z.pow_add_r by lia. change (2 ^ 1) with 2. ring.
+    + rewrite Estep, V2. ring.
+    + lia.
+Qed.
+
+Lemma rem_div_loop_spec N a d :
+  u32s_wf N a -> u32s_wf N d -> 0 < u32s_value d ->
+  forall n q r Q, (n <= 32 * N)%nat -> u32s_wf N q -> u32s_wf N r ->
+    u32s_value q = 2 ^ Z.of_nat n * Q ->
+    u32s_value a / 2 ^ Z.of_nat n = Q * u32s_value d + u32s_value r ->
+    u32s_value r < u32s_value d ->
+    exists q' r', u32s_rem_div_loop a d n q r = Some (q', r') /\ u32s_wf N q' /\ u32s_wf N r' /\
+      u32s_value a = u32s_value q' * u32s_value d + u32s_value r' /\ u32s_value r' < u32s_value d.
+Proof.
+  intros Ha Hd HD. induction n as [|n IH]; intros q r Q Hn Hq Hr Vq Inv Rlt.
+  - exists q, r. cbn [u32s_rem_div_loop]. change (2 ^ Z.of_nat 0) with 1 in *.
+    rewrite Z.div_1_r in Inv. split; [reflexivity|]. split; [exact Hq|]. split; [exact Hr|]. split; [|exact Rlt].
+    rewrite Vq, Inv. ring.
+  - cbn [u32s_rem_div_loop].
+    replace (Z.of_nat (S n)) with (Z.of_nat n + 1) in * by lia.
+    destruct (rem_div_step_spec N a d (Z.of_nat n) q r Q Ha Hd HD Hq Hr ltac:(lia) Vq Inv Rlt)
+      as (q' & r' & Q' & -> & Hq' & Hr' & Vq' & Inv' & Rlt').
+    apply (IH q' r' Q'); auto. lia.
+Qed.
+
+Theorem rem_div_spec N a d : u32s_wf N a -> u32s_wf N d ->
+  match u32s_rem_div a d with
+  | Some (q, r) => u32s_value d <> 0 /\ u32s_wf N q /\ u32s_wf N r /\
+                   u32s_value a = u32s_value q * u32s_value d + u32s_value r /\
+                   0 <= u32s_value r < u32s_value d
+  | None => u32s_value d = 0
+  end.
+Proof.
+  intros Ha Hd. unfold u32s_rem_div.
+  pose proof (is_zero_spec d (proj2 Hd)) as Z0.
+  destruct (u32s_is_zero d); [apply Z0; reflexivity|].
+  assert (HD : 0 < u32s_value d).
+  { pose proof (wf_range N d Hd) as F.
+    destruct (Z.eq_dec (u32s_value d) 0) as [E|]; [apply Z0 in E; discriminate|lia]. }
+  rewrite (proj1 Ha).
+  pose proof (wf_range N a Ha) as FA.
+  assert (E32 : Z.of_nat (N * 32) = 32 * Z.of_nat N) by lia.
+  destruct (rem_div_loop_spec N a d Ha Hd HD (N * 32) (u32s_zero N) (u32s_zero N) 0 ltac:(lia)
+              (zero_wf N) (zero_wf N)) as (q & r & -> & Hq & Hr & V & Rlt).
+  - rewrite zero_value. ring.
+  - rewrite zero_value, E32. fold (T N). rewrite Z.div_small by lia. ring.
+  - rewrite zero_value. exact HD.
+  - pose proof (wf_range N r Hr) as FR. split; [lia|]. split; [exact Hq|]. split; [exact Hr|]. split; [exact V|lia].
+Qed.
+
+Theorem div_rem_spec N a d : u32s_wf N a -> u32s_wf N d ->
+  match u32s_div a d, u32s_rem a d with
+  | Some q, Some r => u32s_value d <> 0 /\ u32s_wf N q /\ u32s_wf N r /\
+                      u32s_value q = u32s_value a / u32s_value d /\ u32s_value r = u32s_value a mod u32s_value d
+  | None, None => u32s_value d = 0
+  | _, _ => False
+  end.
+Proof.
+  intros Ha Hd. unfold u32s_div, u32s_rem. pose proof (rem_div_spec N a d Ha Hd) as H.
+  destruct (u32s_rem_div a d) as [[q r]|]; cbn [option_map fst snd]; [|exact H].
+  destruct H as (HD & Hq & Hr & V & R). split; [exact HD|]. split; [exact Hq|]. split; [exact Hr|]. split.
+  - apply Z.div_unique_pos with (u32s_value r); lia.
+  - apply Z.mod_unique_pos with (u32s_value q); lia.
+Qed.
+
+(* ------------------------------------------------------------------ Mul *)
+Lemma ripple_spec l : Forall limb l ->
+  match u32s_ripple l with
+  | Some l' => length l' = length l /\ Forall limb l' /\ u32s_value l' = u32s_value l + 1
+  | None => u32s_value l + 1 = T (length l)
+  end.
+Proof.
+  induction 1 as [|x t Hx Ht IH].
+  - cbn. reflexivity.
+  - cbn [u32s_ripple]. unfold ovf_add. cbn [b2z]. unfold wrap. rewrite pow32.
+    unfold limb in Hx. rewrite pow32 in Hx.
+    destruct (Z.leb_spec B32 (x + 1)) as [Hc|Hc].
+    + destruct (u32s_ripple t) as [t'|]; cbn [option_map length]; rewrite ?T_S, !value_cons.
+      * destruct IH as (L & F & V). split; [lia|]. split; [constructor; auto; unfold limb; rewrite pow32; lia|]. lia.
+      * lia.
+    + cbn [length]. rewrite !value_cons. split; [reflexivity|].
+      split; [constructor; auto; unfold limb; rewrite pow32; lia|]. lia.
+Qed.
+
+Lemma firstn_skipn_value (l : list Z) pos :
+  u32s_value l = u32s_value (firstn pos l) + T (length (firstn pos l)) * u32s_value (skipn pos l).
+Proof. rewrite <- value_app, firstn_skipn. reflexivity. Qed.
+
+Lemma add_at_spec res pos x : Forall limb res -> limb x -> (pos < length res)%nat ->
+  match u32s_add_at res pos x with
+  | Some r => length r = length res /\ Forall limb r /\ u32s_value r = u32s_value res + T pos * x
+  | None => T (length res) <= u32s_value res + T pos * x
+  end.
+Proof.
+  intros Hr Hx Hpos. unfold u32s_add_at.
+  pose proof (firstn_skipn pos res) as Esplit.
+  pose proof (firstn_length_le res (n := pos) ltac:(lia)) as Lpre.
+  assert (Fboth : Forall limb (firstn pos res) /\ Forall limb (skipn pos res)).
+  { apply Forall_app. rewrite Esplit. exact Hr. }
+  destruct Fboth as [Fpre Fsuf].
+  pose proof (firstn_skipn_value res pos) as V0. rewrite Lpre in V0.
+  assert (Lsuf : length (skipn pos res) = (length res - pos)%nat) by apply skipn_length.
+  destruct (skipn pos res) as [|y t] eqn:Es; [cbn in Lsuf; lia|].
+  inversion Fsuf as [|? ? Hy Ht]; subst.
+  unfold ovf_add, wrap. rewrite pow32. unfold limb in Hx, Hy. rewrite pow32 in Hx, Hy.
+  rewrite value_cons in V0.
+  pose proof (value_range _ Fpre) as Rpre. rewrite Lpre in Rpre.
+  pose proof (T_pos pos) as Tp.
+  assert (Elen : length res = (pos + S (length t))%nat) by (cbn in Lsuf; lia).
+  destruct (Z.leb_spec B32 (y + x)) as [Hc|Hc].
+  - pose proof (ripple_spec t Ht) as Rp. destruct (u32s_ripple t) as [t'|]; cbn [option_map].
+    + destruct Rp as (L & F & V). rewrite app_length. cbn [length]. rewrite Lpre, L.
+      split; [lia|]. split.
+      * apply Forall_app. split; auto. constructor; auto. unfold limb. rewrite pow32. lia.
+      * rewrite value_app, Lpre, value_cons, V, V0.
+        replace ((y + x) mod B32) with (y + x - B32) by lia. ring.
+    + rewrite Elen, T_add, T_S, V0.
+      assert (E : u32s_value (firstn pos res) + T pos * (y + B32 * u32s_value t) + T pos * x
+                  = u32s_value (firstn pos res) + T pos * (y + x - B32) + T pos * (B32 * T (length t))) by (rewrite <- Rp; ring).
+      rewrite E. assert (0 <= T pos * (y + x - B32)) by (apply Z.mul_nonneg_nonneg; lia). lia.
+  - rewrite app_length. cbn [length]. rewrite Lpre. split; [lia|]. split.
+    + apply Forall_app. split; auto. constructor; auto. unfold limb. rewrite pow32. lia.
+    + rewrite value_app, Lpre, value_cons, V0. rewrite Z.mod_small by lia. ring.
+Qed.
+
+Lemma mul_hi_lo ai bj : limb ai -> limb bj ->
+  let hi := ucast 32 (wshr (ai * bj) 32) in let lo := ucast 32 (ai * bj) in
+  limb hi /\ limb lo /\ ai * bj = hi * B32 + lo /\ 0 <= ai * bj < 2 ^ 64.
+Proof.
+  unfold limb, ucast, wshr, wrap. rewrite pow32. intros Ha Hb. cbv zeta.
+  assert (0 <= ai * bj) by (apply Z.mul_nonneg_nonneg; lia).
+  assert (ai * bj <= 4294967295 * 4294967295) by (apply Z.mul_le_mono_nonneg; lia).
+  change (2 ^ 64) with 18446744073709551616. lia.
+Qed.
+
+Lemma mul_cell_spec N ai bj i j res : u32s_wf N res -> limb ai -> limb bj ->
+  match u32s_mul_cell N ai bj i j res with
+  | Some r => u32s_wf N r /\ u32s_value r = u32s_value res + ai * bj * T (i + j)
+  | None => T N <= u32s_value res + ai * bj * T (i + j)
+  end.
+Proof.
+  intros [L F] Ha Hb. unfold u32s_mul_cell. cbv zeta.
+  destruct (mul_hi_lo ai bj Ha Hb) as (Hhi & Hlo & E & _). cbv zeta in Hhi, Hlo, E.
+  set (hi := ucast 32 (wshr (ai * bj) 32)) in *. set (lo := ucast 32 (ai * bj)) in *.
+  pose proof (value_range res F) as Rres. rewrite L in Rres.
+  pose proof (T_pos (i + j)) as Tp.
+  unfold limb in Hhi, Hlo. rewrite pow32 in Hhi, Hlo.
+  destruct (Z.eqb_spec hi 0) as [Eh|Eh]; destruct (Z.eqb_spec lo 0) as [El|El]; cbn [andb].
+  - (* product is zero *)
+    rewrite orb_true_r. cbn [negb]. rewrite E, Eh, El. split; [split; auto|ring].
+  - rewrite orb_false_r. destruct (Nat.ltb_spec (i + j) N) as [Hij|Hij]; cbn [negb].
+    + pose proof (add_at_spec res (i + j) lo F ltac:(unfold limb; rewrite pow32; lia) ltac:(lia)) as A1.
+      destruct (u32s_add_at res (i + j) lo) as [res1|].
+      * destruct A1 as (L1 & F1 & V1). split; [split; auto; lia|]. rewrite V1, E, Eh. ring.
+      * rewrite L in A1. rewrite E, Eh. lia.
+    + assert (T N <= T (i + j)) by (apply T_le; lia).
+      assert (1 * T (i + j) <= ai * bj * T (i + j)) by (apply Z.mul_le_mono_nonneg_r; lia). lia.
+  - rewrite orb_false_r. destruct (Nat.ltb_spec (i + j) N) as [Hij|Hij]; cbn [negb].
+    + pose proof (add_at_spec res (i + j) lo F ltac:(unfold limb; rewrite pow32; lia) ltac:(lia)) as A1.
+      destruct (u32s_add_at res (i + j) lo) as [res1|].
+      * destruct A1 as (L1 & F1 & V1).
+        destruct (Nat.ltb_spec (i + j + 1) N) as [Hij1|Hij1]; cbn [negb].
+        -- pose proof (add_at_spec res1 (i + j + 1) hi F1 ltac:(unfold limb; rewrite pow32; lia) ltac:(lia)) as A2.
+           replace (T (i + j + 1)) with (B32 * T (i + j)) in A2 by (rewrite <- T_S; f_equal; lia).
+           destruct (u32s_add_at res1 (i + j + 1) hi) as [res2|].
+           ++ destruct A2 as (L2 & F2 & V2). split; [split; auto; lia|]. rewrite V2, V1, E. ring.
+           ++ rewrite L1, L in A2. rewrite V1 in A2. rewrite E. lia.
+        -- assert (T N <= T (i + j + 1)) by (apply T_le; lia).
+           replace (T (i + j + 1)) with (B32 * T (i + j)) in * by (rewrite <- T_S; f_equal; lia).
+           assert (1 * (B32 * T (i + j)) <= hi * (B32 * T (i + j))) by (apply Z.mul_le_mono_nonneg_r; lia).
+           rewrite E. pose proof (value_range res1 F1). 
+           assert (0 <= lo * T (i + j)) by (apply Z.mul_nonneg_nonneg; lia). lia.
+      * rewrite L in A1. rewrite E.
+        assert (0 <= hi * B32 * T (i + j)) by (apply Z.mul_nonneg_nonneg; lia). lia.
+    + assert (T N <= T (i + j)) by (apply T_le; lia).
+      assert (1 * T (i + j) <= ai * bj * T (i + j)) by (apply Z.mul_le_mono_nonneg_r; lia). lia.
+  - rewrite orb_false_r. destruct (Nat.ltb_spec (i + j) N) as [Hij|Hij]; cbn [negb].
+    + pose proof (add_at_spec res (i + j) lo F ltac:(unfold limb; rewrite pow32; lia) ltac:(lia)) as A1.
+      destruct (u32s_add_at res (i + j) lo) as [res1|].
+      * destruct A1 as (L1 & F1 & V1).
+        destruct (Nat.ltb_spec (i + j + 1) N) as [Hij1|Hij1]; cbn [negb].
+        -- pose proof (add_at_spec res1 (i + j + 1) hi F1 ltac:(unfold limb; rewrite pow32; lia) ltac:(lia)) as A2.
+           replace (T (i + j + 1)) with (B32 * T (i + j)) in A2 by (rewrite <- T_S; f_equal; lia).
+           destruct (u32s_add_at res1 (i + j + 1) hi) as [res2|].
+           ++ destruct A2 as (L2 & F2 & V2). split; [split; auto; lia|]. rewrite V2, V1, E. ring.
+           ++ rewrite L1, L in A2. rewrite V1 in A2. rewrite E. lia.
+        -- assert (T N <= T (i + j + 1)) by (apply T_le; lia).
+           replace (T (i + j + 1)) with (B32 * T (i + j)) in * by (rewrite <- T_S; f_equal; lia).
+           assert (1 * (B32 * T (i + j)) <= hi * (B32 * T (i + j))) by (apply Z.mul_le_mono_nonneg_r; lia).
+           rewrite E. pose proof (value_range res1 F1).
+           assert (0 <= lo * T (i + j)) by (apply Z.mul_nonneg_nonneg; lia). lia.
+      * rewrite L in A1. rewrite E.
+        assert (0 <= hi * B32 * T (i + j)) by (apply Z.mul_nonneg_nonneg; lia). lia.
+    + assert (T N <= T (i + j)) by (apply T_le; lia).
+      assert (1 * T (i + j) <= ai * bj * T (i + j)) by (apply Z.mul_le_mono_nonneg_r; lia). lia.
+Qed.
+
+Lemma mul_inner_spec N ai i : limb ai -> forall bs j res, Forall limb bs -> u32s_wf N res ->
+  match u32s_mul_inner N ai i bs j res with
+  | Some r => u32s_wf N r /\ u32s_value r = u32s_value res + ai * u32s_value bs * T (i + j)
+  | None => T N <= u32s_value res + ai * u32s_value bs * T (i + j)
+  end.
+Proof.
+  intros Ha. induction bs as [|bj bs IH]; intros j res Hbs Hres.
+  - cbn [u32s_mul_inner u32s_value]. split; [exact Hres|ring].
+  - inversion Hbs as [|? ? Hb Hbs']; subst. cbn [u32s_mul_inner]. rewrite value_cons.
+    pose proof (mul_cell_spec N ai bj i j res Hres Ha Hb) as C.
+    pose proof (value_range bs Hbs') as Rbs. pose proof (T_pos (i + j)) as Tp.
+    unfold limb in Ha, Hb. rewrite pow32 in Ha, Hb.
+    assert (Hrest : 0 <= ai * (B32 * u32s_value bs) * T (i + j)).
+    { apply Z.mul_nonneg_nonneg; [|lia]. apply Z.mul_nonneg_nonneg; lia. }
+    destruct (u32s_mul_cell N ai bj i j res) as [res'|].
+    + destruct C as [Hres' V']. specialize (IH (S j) res' Hbs' Hres').
+      replace (T (i + S j)) with (B32 * T (i + j)) in IH by (rewrite <- T_S; f_equal; lia).
+      destruct (u32s_mul_inner N ai i bs (S j) res') as [r|].
+      * destruct IH as [Hr V]. split; [exact Hr|]. rewrite V, V'. ring.
+      * rewrite V' in IH. replace (ai * (bj + B32 * u32s_value bs) * T (i + j))
+          with (ai * bj * T (i + j) + ai * u32s_value bs * (B32 * T (i + j))) by ring. lia.
+    + replace (ai * (bj + B32 * u32s_value bs) * T (i + j))
+        with (ai * bj * T (i + j) + ai * (B32 * u32s_value bs) * T (i + j)) by ring. lia.
+Qed.
+
+Lemma mul_outer_spec N b : Forall limb b -> forall as_ i res, Forall limb as_ -> u32s_wf N res ->
+  match u32s_mul_outer N as_ i b res with
+  | Some r => u32s_wf N r /\ u32s_value r = u32s_value res + u32s_value as_ * u32s_value b * T i
+  | None => T N <= u32s_value res + u32s_value as_ * u32s_value b * T i
+  end.
+Proof.
+  intros Hb. induction as_ as [|ai as_ IH]; intros i res Has Hres.
+  - cbn [u32s_mul_outer u32s_value]. split; [exact Hres|ring].
+  - inversion Has as [|? ? Ha Has']; subst. cbn [u32s_mul_outer]. rewrite value_cons.
+    pose proof (mul_inner_spec N ai i Ha b 0%nat res Hb Hres) as C.
+    replace (i + 0)%nat with i in C by lia.
+    pose proof (value_range as_ Has') as Ras. pose proof (value_range b Hb) as Rb. pose proof (T_pos i) as Tp.
+    unfold limb in Ha. rewrite pow32 in Ha.
+    assert (Hrest : 0 <= B32 * u32s_value as_ * u32s_value b * T i).
+    { apply Z.mul_nonneg_nonneg; [|lia]. apply Z.mul_nonneg_nonneg; lia. }
+    destruct (u32s_mul_inner N ai i b 0 res) as [res'|].
+    + destruct C as [Hres' V']. specialize (IH (S i) res' Has' Hres'). rewrite T_S in IH.
+      destruct (u32s_mul_outer N as_ (S i) b res') as [r|].
+      * destruct IH as [Hr V]. split; [exact Hr|]. rewrite V, V'. ring.
+      * rewrite V' in IH. replace ((ai + B32 * u32s_value as_) * u32s_value b * T i)
+          with (ai * u32s_value b * T i + u32s_value as_ * u32s_value b * (B32 * T i)) by ring. lia.
+    + replace ((ai + B32 * u32s_value as_) * u32s_value b * T i)
+        with (ai * u32s_value b * T i + B32 * u32s_value as_ * u32s_value b * T i) by ring. lia.
+Qed.
+
+Theorem mul_spec N a b : u32s_wf N a -> u32s_wf N b ->
+  match u32s_mul a b with
+  | Some r => u32s_wf N r /\ u32s_value r = u32s_value a * u32s_value b
+  | None => T N <= u32s_value a * u32s_value b
+  end.
+Proof.
+  intros [La Fa] [Lb Fb]. unfold u32s_mul. rewrite La.
+  pose proof (mul_outer_spec N b Fb a 0%nat (u32s_zero N) Fa (zero_wf N)) as H.
+  rewrite zero_value, T_0 in H.
+  destruct (u32s_mul_outer N a 0 b (u32s_zero N)) as [r|].
+  - destruct H as [Hr V]. split; [exact Hr|]. rewrite V. ring.
+  - lia.
+Qed.
+
+(* ------------------------------------------------------------------ Zero / One / From<u32> / is_one *)
+Theorem from_u32_spec N n : limb n ->
+  match u32s_from_u32 N n with
+  | Some r => N <> 0%nat /\ u32s_wf N r /\ u32s_value r = n
+  | None => N = 0%nat
+  end.
+Proof.
+  intros Hn. unfold u32s_from_u32, u32s_zero. destruct N as [|N]; [reflexivity|].
+  cbn [repeat u32s_upd]. split; [discriminate|]. split.
+  - split; [cbn [length]; rewrite repeat_length; reflexivity|constructor; [exact Hn|apply Forall_repeat0]].
+  - rewrite value_cons, value_repeat0. lia.
+Qed.
+
+Theorem one_spec N :
+  match u32s_one N with
+  | Some r => N <> 0%nat /\ u32s_wf N r /\ u32s_value r = 1
+  | None => N = 0%nat
+  end.
+Proof. apply (from_u32_spec N 1). unfold limb. rewrite pow32. lia. Qed.
+
+Theorem is_one_spec N l : u32s_wf N l ->
+  match u32s_is_one l with
+  | Some b => N <> 0%nat /\ b = (u32s_value l =? 1)
+  | None => N = 0%nat
+  end.
+Proof.
+  intros Hl. unfold u32s_is_one. rewrite (proj1 Hl). pose proof (one_spec N) as H.
+  destruct (u32s_one N) as [o|]; cbn [option_map]; [|exact H].
+  destruct H as (HN & Ho & Vo). split; [exact HN|]. rewrite (eqb_spec N) by auto. rewrite Vo. reflexivity.
+Qed.
+
+(* ------------------------------------------------------------------ Sum *)
+Lemma sum_fold_none (ls : list (list Z)) :
+  fold_left (fun acc b => match acc with None => None | Some a => u32s_add a b end) ls None = None.
+Proof. induction ls; cbn; auto. Qed.
+
+Fixpoint sum_values (ls : list (list Z)) : Z :=
+  match ls with [] => 0 | l :: t => u32s_value l + sum_values t end.
+
+Lemma sum_values_nonneg N ls : Forall (u32s_wf N) ls -> 0 <= sum_values ls.
+Proof.
+  induction 1 as [|l t Hl Ht IH]; cbn [sum_values]; [lia|]. pose proof (wf_range N l Hl). lia.
+Qed.
+
+Lemma sum_fold_spec N : forall ls acc, u32s_wf N acc -> Forall (u32s_wf N) ls ->
+  match fold_left (fun acc b => match acc with None => None | Some a => u32s_add a b end) ls (Some acc) with
+  | Some r => u32s_wf N r /\ u32s_value r = u32s_value acc + sum_values ls
+  | None => T N <= u32s_value acc + sum_values ls
+  end.
+Proof.
+  induction ls as [|l ls IH]; intros acc Hacc Hls.
+  - cbn. split; [exact Hacc|lia].
+  - inversion Hls as [|? ? Hl Hls']; subst. cbn [fold_left sum_values].
+    pose proof (add_spec N acc l Hacc Hl) as A. destruct (u32s_add acc l) as [acc'|].
+    + destruct A as [Hacc' V']. specialize (IH acc' Hacc' Hls').
+      destruct (fold_left _ ls (Some acc')) as [r|].
+      * destruct IH as [Hr V]. split; [exact Hr|lia].
+      * lia.
+    + rewrite sum_fold_none. pose proof (sum_values_nonneg N ls Hls'). lia.
+Qed.
+
+Theorem sum_spec N ls : Forall (u32s_wf N) ls ->
+  match u32s_sum N ls with
+  | Some r => u32s_wf N r /\ u32s_value r = sum_values ls
+  | None => T N <= sum_values ls
+  end.
+Proof.
+  intros H. unfold u32s_sum. pose proof (sum_fold_spec N ls (u32s_zero N) (zero_wf N) H) as S.
+  rewrite zero_value in S. exact S.
+Qed.
+
+(* ------------------------------------------------------------------ BigUint conversions *)
+Theorem to_big_spec l : u32s_to_big l = u32s_value l.
+Proof.
+  induction l as [|x t IH]; [reflexivity|].
+  cbn [u32s_to_big fold_right]. fold (u32s_to_big t). rewrite IH, value_cons.
+  rewrite Z.shiftl_mul_pow2 by lia. rewrite pow32. ring.
+Qed.
+
+Theorem from_big_spec : forall N v, 0 <= v ->
+  exists l, u32s_from_big N v = Some l /\ u32s_wf N l /\ u32s_value l = v mod T N.
+Proof.
+  induction N as [|N IH]; intros v Hv.
+  - exists []. cbn [u32s_from_big]. rewrite T_0, Z.mod_1_r. repeat split; constructor.
+  - cbn [u32s_from_big]. unfold U32_MAX. rewrite pow32.
+    destruct (Z.leb_spec (v mod B32) 4294967295) as [_|]; [|lia].
+    destruct (IH (v / B32) ltac:(lia)) as (t & -> & [L F] & V). cbn [option_map].
+    eexists. split; [reflexivity|]. split.
+    + split; [cbn [length]; lia|constructor; auto; unfold limb; rewrite pow32; lia].
+    + rewrite value_cons, V, T_S. pose proof (T_pos N). rewrite Z.rem_mul_r by lia. reflexivity.
+Qed.
+
+Theorem big_round_trip N l : u32s_wf N l -> u32s_from_big N (u32s_to_big l) = Some l.
+Proof.
+  intros Hl. pose proof (wf_range N l Hl) as R. rewrite to_big_spec.
+  destruct (from_big_spec N (u32s_value l) ltac:(lia)) as (l' & -> & Hl' & V).
+  rewrite Z.mod_small in V by lia. f_equal. apply (wf_value_inj N); auto.
+Qed.
+
+Theorem big_round_trip_value N v : u32s_fits N v ->
+  exists l, u32s_from_big N v = Some l /\ u32s_wf N l /\ u32s_to_big l = v.
+Proof.
+  intros Hv. change (0 <= v < T N) in Hv. destruct (from_big_spec N v ltac:(lia)) as (l & E & Hl & V).
+  exists l. rewrite to_big_spec, V, Z.mod_small by lia. auto.
+Qed.
+
+(* ------------------------------------------------------------------ TryFrom, generically in the (regenerated) guard *)
+Lemma try_from_generic (rejects : bool) N v : 0 <= v -> (rejects = true <-> ~ u32s_fits N v) ->
+  let res := if rejects then Rej else u32s_of_option (u32s_from_big N v) in
+  (u32s_fits N v -> exists r, res = Done r /\ u32s_wf N r /\ u32s_value r = v) /\
+  (~ u32s_fits N v -> res = Rej).
+Proof.
+  intros Hv G. cbv zeta. split.
+  - intros Hf. destruct rejects; [exfalso; apply (proj1 G); auto|].
+    destruct (from_big_spec N v Hv) as (l & -> & Hl & V). exists l. cbn [u32s_of_option].
+    change (0 <= v < T N) in Hf. rewrite Z.mod_small in V by lia. auto.
+  - intros Hf. apply G in Hf. rewrite Hf. reflexivity.
+Qed.
+
+Lemma T_ge_64 N : (2 <= N)%nat -> 2 ^ 64 <= T N.
+Proof. intros H. change (2 ^ 64) with (T 2). apply T_le. exact H. Qed.
+Lemma T_ge_128 N : (4 <= N)%nat -> 2 ^ 128 <= T N.
+Proof. intros H. change (2 ^ 128) with (T 4). apply T_le. exact H. Qed.
+
+(* TryFrom<u64>: exact for every N >= 1 *)
+Theorem tryfrom_u64_guard_exact N v : N <> 0%nat -> 0 <= v < 2 ^ 64 ->
+  tryfrom_u64_rejects (Z.of_nat N) v = true <-> ~ u32s_fits N v.
+Proof.
+  intros HN Hv. rewrite fits_T. unfold tryfrom_u64_rejects.
+  destruct N as [|[|N]]; [contradiction| |].
+  - change (Z.of_nat 1) with 1. cbn [Z.eqb Pos.eqb andb]. change (T 1) with B32. rewrite Z.gtb_ltb.
+    destruct (Z.ltb_spec 4294967295 v); split; intros; try lia; try discriminate; reflexivity.
+  - pose proof (T_ge_64 (S (S N)) ltac:(lia)).
+    destruct (Z.eqb_spec (Z.of_nat (S (S N))) 0); [lia|]. destruct (Z.eqb_spec (Z.of_nat (S (S N))) 1); [lia|].
+    cbn [andb]. split; [discriminate|]. intros; lia.
+Qed.
+
+Theorem try_from_u64_spec N v : N <> 0%nat -> 0 <= v < 2 ^ 64 ->
+  (u32s_fits N v -> exists r, u32s_try_from_u64 N v = Done r /\ u32s_wf N r /\ u32s_value r = v) /\
+  (~ u32s_fits N v -> u32s_try_from_u64 N v = Rej).
+Proof.
+  intros HN Hv. unfold u32s_try_from_u64.
+  apply (try_from_generic (tryfrom_u64_rejects (Z.of_nat N) v) N v); [lia|]. apply tryfrom_u64_guard_exact; auto.
+Qed.
+
+(* TryFrom<u128> reduced to a statement about the regenerated guard alone *)
+Theorem try_from_u128_of_guard N v : 0 <= v ->
+  (tryfrom_u128_rejects (Z.of_nat N) v = true <-> ~ u32s_fits N v) ->
+  (u32s_fits N v -> exists r, u32s_try_from_u128 N v = Done r /\ u32s_wf N r /\ u32s_value r = v) /\
+  (~ u32s_fits N v -> u32s_try_from_u128 N v = Rej).
+Proof.
+  intros Hv G. unfold u32s_try_from_u128. apply (try_from_generic _ N v Hv G).
+Qed.
+
+(* the width-0 type: 0 fits (it is the only value), yet both conversions reject it and From<u32> panics *)
+Theorem width0_zero_fits : u32s_fits 0 0.
+Proof. unfold u32s_fits. cbn. lia. Qed.
+
+(* ------------------------------------------------------------------ field elements and codec *)
+Lemma bfe_value_new_limb v : limb v -> bfe_value (bfe_from_u32 v) = v.
+Proof.
+  intros Hv. unfold limb in Hv. rewrite pow32 in Hv. unfold bfe_from_u32.
+  rewrite BFieldProofs.value_new by (change (2 ^ 64) with 18446744073709551616; lia).
+  apply Z.mod_small. change P with 18446744069414584321. lia.
+Qed.
+
+Theorem to_bfes_spec l : Forall limb l ->
+  length (u32s_to_bfes l) = length l /\ map bfe_value (u32s_to_bfes l) = l.
+Proof.
+  intros H. unfold u32s_to_bfes. split; [apply map_length|].
+  induction H as [|x t Hx Ht IH]; cbn [map]; [reflexivity|]. rewrite bfe_value_new_limb, IH; auto.
+Qed.
+
+Lemma encode_is_to_bfes l : u32s_encode l = u32s_to_bfes l.
+Proof. unfold u32s_encode, u32s_to_bfes. induction l as [|x l IH]; cbn [flat_map map app]; [reflexivity|]. rewrite IH. reflexivity. Qed.
+
+Lemma skipn_S_tl : forall i (s : list Z), skipn (S i) s = tl (skipn i s).
+Proof.
+  induction i as [|i IH]; intros [|x s]; try reflexivity. cbn [skipn]. rewrite <- IH. reflexivity.
+Qed.
+
+Lemma decode_loop_values : forall n s i, (i + n = length s)%nat ->
+  Forall (fun w => 0 <= bfe_value w <= U32_MAX) s ->
+  u32s_decode_loop s i n = Done (map bfe_value (skipn i s)).
+Proof.
+  induction n as [|n IH]; intros s i Hlen Hs.
+  - cbn [u32s_decode_loop]. rewrite skipn_all2 by lia. reflexivity.
+  - cbn [u32s_decode_loop]. unfold u32s_slice1.
+    destruct (Nat.leb_spec (i + 1) (length s)) as [_|]; [|lia].
+    assert (Ls : length (skipn i s) = S n) by (rewrite skipn_length; lia).
+    destruct (skipn i s) as [|w t] eqn:Es; [discriminate|].
+    cbn [firstn u32_decode].
+    assert (Hw : 0 <= bfe_value w <= U32_MAX).
+    { pose proof (proj1 (Forall_forall _ _) Hs) as Hs'. apply Hs'. rewrite <- (firstn_skipn i s), Es. apply in_or_app. right. left. reflexivity. }
+    destruct (Z.leb_spec (bfe_value w) U32_MAX) as [_|]; [|lia].
+    rewrite (IH s (S i)) by (auto; lia).
+    assert (Et : skipn (S i) s = t) by (rewrite skipn_S_tl, Es; reflexivity).
+    rewrite Et. reflexivity.
+Qed.
+
+Lemma decode_loop_rej : forall n s i, (i + n = length s)%nat ->
+  Exists (fun w => U32_MAX < bfe_value w) (skipn i s) -> u32s_decode_loop s i n = Rej.
+Proof.
+  induction n as [|n IH]; intros s i Hlen Hs.
+  - rewrite skipn_all2 in Hs by lia. inversion Hs.
+  - cbn [u32s_decode_loop]. unfold u32s_slice1.
+    destruct (Nat.leb_spec (i + 1) (length s)) as [_|]; [|lia].
+    assert (Ls : length (skipn i s) = S n) by (rewrite skipn_length; lia).
+    assert (Et : skipn (S i) s = tl (skipn i s)) by apply skipn_S_tl.
+    destruct (skipn i s) as [|w t] eqn:Es; [discriminate|]. cbn [tl] in Et.
+    cbn [firstn u32_decode].
+    destruct (Z.leb_spec (bfe_value w) U32_MAX) as [Hw|Hw]; [|reflexivity].
+    rewrite (IH s (S i)); [reflexivity|lia|]. rewrite Et. inversion Hs; subst; [lia|assumption].
+Qed.
+
+(* decode is total (never panics), strict and exact *)
+Theorem decode_spec N s : Forall (fun w => 0 <= bfe_value w) s ->
+  if (length s =? N)%nat && forallb (fun w => bfe_value w <=? U32_MAX) s
+  then u32s_decode N s = Done (map bfe_value s) /\ u32s_wf N (map bfe_value s)
+  else u32s_decode N s = Rej.
+Proof.
+  intros Hnn. unfold u32s_decode.
+  destruct (Nat.eqb_spec (length s) N) as [HL|HL]; cbn [andb].
+  - assert (E1 : ((0 <? N)%nat && match s with [] => true | _ :: _ => false end) = false).
+    { destruct s; cbn [length] in HL; subst; [reflexivity|apply andb_false_r]. }
+    rewrite E1. destruct (Nat.ltb_spec (length s) N); [lia|]. destruct (Nat.ltb_spec N (length s)); [lia|].
+    destruct (forallb (fun w => bfe_value w <=? U32_MAX) s) eqn:Ef.
+    + assert (Hs : Forall (fun w => 0 <= bfe_value w <= U32_MAX) s).
+      { rewrite forallb_forall in Ef. apply Forall_forall. intros w Hw.
+        split; [eapply Forall_forall in Hnn; eauto|apply Z.leb_le, Ef, Hw]. }
+      split; [rewrite (decode_loop_values N s 0) by (auto; lia); reflexivity|].
+      split; [rewrite map_length; exact HL|].
+      apply Forall_forall. intros x Hx. apply in_map_iff in Hx. destruct Hx as (w & <- & Hw).
+      eapply Forall_forall in Hs; [|exact Hw]. unfold limb, U32_MAX in *. rewrite pow32. lia.
+    + apply decode_loop_rej; [lia|]. cbn [skipn].
+      apply Exists_exists.
+      assert (Hex : exists w, In w s /\ (bfe_value w <=? U32_MAX) = false).
+      { clear -Ef. induction s as [|w s IH]; [discriminate|]. cbn [forallb] in Ef. apply andb_false_iff in Ef.
+        destruct Ef as [E|E]; [exists w; split; [left; reflexivity|exact E]|].
+        destruct (IH E) as (w' & Hin & Hw'). exists w'. split; [right; exact Hin|exact Hw']. }
+      destruct Hex as (w & Hin & Hw). exists w. split; [exact Hin|]. apply Z.leb_gt. exact Hw.
+  - destruct ((0 <? N)%nat && match s with [] => true | _ :: _ => false end); [reflexivity|].
+    destruct (Nat.ltb_spec (length s) N); [reflexivity|]. destruct (Nat.ltb_spec N (length s)); [reflexivity|lia].
+Qed.
+
+Theorem codec_round_trip N l : u32s_wf N l -> u32s_decode N (u32s_encode l) = Done l.
+Proof.
+  intros [L F]. rewrite encode_is_to_bfes. destruct (to_bfes_spec l F) as [Len Vals].
+  pose proof (decode_spec N (u32s_to_bfes l)) as D.
+  assert (Hnn : Forall (fun w => 0 <= bfe_value w) (u32s_to_bfes l)).
+  { unfold u32s_to_bfes. apply Forall_forall. intros w Hw. apply in_map_iff in Hw. destruct Hw as (x & <- & Hx).
+    eapply Forall_forall in F; [|exact Hx]. rewrite bfe_value_new_limb by auto. unfold limb in F. lia. }
+  specialize (D Hnn). rewrite Len, L, Nat.eqb_refl in D. cbn [andb] in D.
+  assert (Ef : forallb (fun w => bfe_value w <=? U32_MAX) (u32s_to_bfes l) = true).
+  { apply forallb_forall. intros w Hw. unfold u32s_to_bfes in Hw. apply in_map_iff in Hw. destruct Hw as (x & <- & Hx).
+    eapply Forall_forall in F; [|exact Hx]. rewrite bfe_value_new_limb by auto. unfold limb, U32_MAX in *. rewrite pow32 in F.
+    apply Z.leb_le. lia. }
+  rewrite Ef, Vals in D. apply D.
+Qed.
+
+Theorem bfes_round_trip N l : u32s_wf N l -> u32s_decode N (u32s_to_bfes l) = Done l.
+Proof. intros H. rewrite <- encode_is_to_bfes. apply codec_round_trip. exact H. Qed.
+
+Theorem encode_length N l : u32s_wf N l -> Some (length (u32s_encode l)) = u32s_static_length N.
+Proof.
+  intros [L F]. rewrite encode_is_to_bfes. unfold u32s_to_bfes, u32s_static_length. rewrite map_length, L. reflexivity.
 Qed.
